@@ -1243,6 +1243,125 @@ fn run(op_full: &str, a: &[&str]) -> String {
             format!("ok {} ={}", sv(&back), back == v)
         }
         // ---- witnesses of recorded findings that need large or paired inputs
+        // ---- the tree-level API: value.rs helpers, Display, from.rs, lazy_value.rs (model: coq/ValueApi.v)
+        "value_api" => {
+            let v = parse_val(a[0]);
+            let b = |x: bool| if x { "1" } else { "0" };
+            let num = |n: &Number| {
+                let mut s = String::new();
+                show_num(n, &mut s);
+                s
+            };
+            let none = || "none".to_string();
+            vec![
+                "ok".to_string(),
+                format!("sc={}", b(v.is_scalar())),
+                format!("ob={}", b(v.is_object())),
+                format!("ar={}", b(v.is_array())),
+                format!("st={}", b(v.is_string())),
+                format!("nu={}", b(v.is_number())),
+                format!("i64={}", b(v.is_i64())),
+                format!("u64={}", b(v.is_u64())),
+                format!("f64={}", b(v.is_f64())),
+                format!("bo={}", b(v.is_boolean())),
+                format!("nl={}", b(v.is_null())),
+                format!("as_i64={}", v.as_i64().map(|x| x.to_string()).unwrap_or_else(none)),
+                format!("as_u64={}", v.as_u64().map(|x| x.to_string()).unwrap_or_else(none)),
+                format!("as_f64={}", v.as_f64().map(|x| format!("{:016x}", x.to_bits())).unwrap_or_else(none)),
+                format!("as_bool={}", v.as_bool().map(|x| b(x).to_string()).unwrap_or_else(none)),
+                format!("as_str={}", v.as_str().map(|x| format!("s{}", hexs(x.as_bytes()))).unwrap_or_else(none)),
+                format!("as_number={}", v.as_number().map(|x| num(x)).unwrap_or_else(none)),
+                format!("as_array={}", v.as_array().map(|x| sv(&Value::Array(x.clone()))).unwrap_or_else(none)),
+                format!("as_object={}", v.as_object().map(|x| sv(&Value::Object(x.clone()))).unwrap_or_else(none)),
+                format!("alen={}", v.array_length().map(|x| x.to_string()).unwrap_or_else(none)),
+                format!("keys={}", v.object_keys().map(|x| sv(&x)).unwrap_or_else(none)),
+            ]
+            .join(" ")
+        }
+        "value_get_ci" => match parse_val(a[0]).get_by_name_ignore_case(ustr(&unhex(a[1]))) {
+            Some(x) => format!("ok {}", sv(x)),
+            None => "ok =none".into(),
+        },
+        "value_eq_variant" => format!("ok ={}", parse_val(a[0]).eq_variant(&parse_val(a[1]))),
+        // Display for Value: float tokens canonicalised like to_string (only for values whose keys hold no quote / backslash:
+        // keys are written raw, so the tokeniser of canon_text would lose track); display_bytes = the exact bytes
+        "display" => format!("ok {}", hex(&canon_text(format!("{}", parse_val(a[0])).as_bytes()))),
+        "display_bytes" => format!("ok {}", hex(format!("{}", parse_val(a[0])).as_bytes())),
+        "from_prim" => {
+            let bits64 = |s: &str| u64::from_str_radix(s, 16).unwrap();
+            let bits32 = |s: &str| u32::from_str_radix(s, 16).unwrap();
+            let ints = |s: &str| -> Vec<i32> { if s == "_" { vec![] } else { s.split(',').map(|x| x.parse().unwrap()).collect() } };
+            let vals = |s: &str| -> Vec<Value<'static>> {
+                match parse_val(s) {
+                    Value::Array(l) => l,
+                    _ => panic!("harness: list expected"),
+                }
+            };
+            let st = |s: &str| String::from_utf8(unhex(s)).expect("harness: string not UTF-8");
+            let v: Value<'static> = match a[0] {
+                "i8" => Value::from(a[1].parse::<i8>().unwrap()),
+                "i16" => Value::from(a[1].parse::<i16>().unwrap()),
+                "i32" => Value::from(a[1].parse::<i32>().unwrap()),
+                "i64" => Value::from(a[1].parse::<i64>().unwrap()),
+                "isize" => Value::from(a[1].parse::<isize>().unwrap()),
+                "u8" => Value::from(a[1].parse::<u8>().unwrap()),
+                "u16" => Value::from(a[1].parse::<u16>().unwrap()),
+                "u32" => Value::from(a[1].parse::<u32>().unwrap()),
+                "u64" => Value::from(a[1].parse::<u64>().unwrap()),
+                "usize" => Value::from(a[1].parse::<usize>().unwrap()),
+                "f64" => Value::from(f64::from_bits(bits64(a[1]))),
+                "f32" => Value::from(f32::from_bits(bits32(a[1]))),
+                "of64" => Value::from(ordered_float::OrderedFloat(f64::from_bits(bits64(a[1])))),
+                "of32" => Value::from(ordered_float::OrderedFloat(f32::from_bits(bits32(a[1])))),
+                "bool" => Value::from(a[1] == "1"),
+                "string" => Value::from(st(a[1])),
+                "str" => {
+                    // From<&'a str> borrows: the text is leaked so that the value is 'static
+                    let leaked: &'static str = Box::leak(st(a[1]).into_boxed_str());
+                    Value::from(leaked)
+                }
+                "cow" => Value::from(Cow::<'static, str>::Owned(st(a[1]))),
+                "unit" => Value::from(()),
+                "object" => match parse_val(a[1]) {
+                    Value::Object(o) => Value::from(o),
+                    _ => panic!("harness: object expected"),
+                },
+                "vec_i32" => Value::from(ints(a[1])),
+                "slice_i32" => {
+                    let leaked: &'static [i32] = Box::leak(ints(a[1]).into_boxed_slice());
+                    Value::from(leaked)
+                }
+                "iter_i32" => ints(a[1]).into_iter().collect::<Value>(),
+                "vec_value" => Value::from(vals(a[1])),
+                "iter_value" => vals(a[1]).into_iter().collect::<Value>(),
+                "vec_str" => Value::from(hexlist(a[1]).iter().map(|k| String::from_utf8(k.clone()).unwrap()).collect::<Vec<String>>()),
+                "pairs" => {
+                    let ks: Vec<String> = hexlist(a[1]).iter().map(|k| String::from_utf8(k.clone()).unwrap()).collect();
+                    ks.into_iter().zip(vals(a[2])).collect::<Value>()
+                }
+                k => panic!("harness: from_prim kind {}", k),
+            };
+            format!("ok {}", sv(&v))
+        }
+        "lazy_value" | "lazy_raw" => {
+            let raw = unhex(a[0]);
+            let lv: jsonb::LazyValue = if op == "lazy_value" {
+                jsonb::LazyValue::from(parse_val(a[0]))
+            } else {
+                jsonb::LazyValue::Raw(Cow::Borrowed(&raw))
+            };
+            let v = lv.to_vec();
+            let al = match lv.array_length() {
+                Some(n) => n.to_string(),
+                None => "none".into(),
+            };
+            let tv = match catch_unwind(AssertUnwindSafe(|| sv(&lv.to_value()))) {
+                Ok(s) => s,
+                Err(_) => "panic".into(),
+            };
+            lv.write_to_vec(&mut buf);
+            format!("ok {}|{}|{}|{}", hex(&v), al, tv, hex(&buf))
+        }
         "big_string" => {
             let n: usize = a[0].parse().unwrap();
             let v = Value::String(Cow::Owned("a".repeat(n)));
